@@ -538,7 +538,16 @@ def main(pid, tier, replay=None):
     core.build_harness()
     n = 160 if tier == "thorough" else 8
     pairs = [gen_pair(rng, i) for i in range(2 * n)]
-    pairs = [long_pair()] + buildable([fix_pair(p) for p in pairs], res.wd)[:n - 1]
+    cands = buildable([fix_pair(p) for p in pairs], res.wd)
+    # every yacc kind x recoverer combination first (whatever the filter dropped), then the rest
+    chosen = []
+    for k in ("grmtools", "original_useraction", "original_generic", "original_noaction"):
+        for rk in ("cpctplus", "none"):
+            c = [p for p in cands if p["kind"] == k and p["opts"]["recoverer"] == rk and p not in chosen]
+            if c:
+                chosen.append(c[0])
+    chosen += [p for p in cands if p not in chosen]
+    pairs = [long_pair()] + chosen[:max(n, 8)]
     inputs = {p["id"]: gen_inputs(p, rng, 80 if tier == "thorough" else 28) for p in pairs}
     d = os.path.join(res.wd, "ctgen")
     lexcases = lex_cases(rng, tier == "thorough")
